@@ -208,6 +208,7 @@ class Tracker(CmdMixin, MboxMixin, SweepMixin, Monitor):
             self._on_sweep(world, st, d, ud)
         elif k in ("start", "stop"):
             self._on_lifecycle(world, st, d, ud)
+        self._any_usage_row_blurred(st, ud)
         self._structural(world, st)
         self._resync(world, st)
         # when did the last subscriber of each mailbox leave (C12: a client may be away for
@@ -290,6 +291,22 @@ class Tracker(CmdMixin, MboxMixin, SweepMixin, Monitor):
                 if pr["synchronous"] != 2 or str(pr["journal_mode"]).lower() != "delete" or pr["isolation_level"] is None:
                     self.flag({"C09", "C10"}, "database connection opened with weakened durability settings", st,
                               {"db": name, "pragmas": pr})
+
+    def _any_usage_row_blurred(self, st, ud):
+        """C16, whatever the path: every client-activity timestamp that appears in the usage database (a new row or a
+        changed value) is a multiple of the configured interval and not in the future."""
+        if not (self.usage_on and self.blur):
+            return
+        for (t, k, old, new) in ud:
+            field = {"nameplates": "started", "mailboxes": "started", "client_versions": "connect_time"}.get(t)
+            if field is None or new is None or (old is not None and old.get(field) == new.get(field)):
+                continue
+            v = new.get(field)
+            self.ev["c16_any_usage_row_blurred"] += 1
+            if not isinstance(v, (int, float)) or isinstance(v, bool) or v % self.blur != 0 or v > st.t:
+                self.flag({"C16"}, "usage timestamp written without blurring", st,
+                          {"table": t, "field": field, "stored": v, "blur": self.blur, "now": st.t, "kind": st.kind,
+                           "msg": _short(st.msg) if st.msg is not None else None})
 
     # ------------------------------------------------------------------
     def _structural(self, world, st):
